@@ -133,6 +133,7 @@ func runScenario(t *testing.T, rec *sim.Recorder, sc Scenario) {
 		rec.Ev("reset", "rc", sc.RC, "select", sc.Select, "scenario", string(js))
 		var vnet kfake.VirtualNetwork
 		chaos := sim.NewChaos()
+		chaos.Latency = 200 * time.Microsecond
 		c, err := kfake.NewCluster(kfake.NumBrokers(2), kfake.SeedTopics(2, topics...), kfake.ListenFn(chaos.Listen(vnet.Listen)), kfake.Ports(9092, 9093))
 		if err != nil {
 			t.Fatal(err)
